@@ -406,7 +406,7 @@ def apply_edit(sv, e):
             if p["role"] == "unk":
                 p["pert"] = (d * (1 if i % 2 else -1), d * (1 if i % 3 else -1), d * 0.5)
     elif k == "ChangeDatum":
-        sets = {1: ("A", "B"), 2: ("C", "D"), 3: ("A", "C", "D"), 4: ("A", "B", "C", "D"), 5: ("A", "D")}[e["s"]]
+        sets = {1: ("A", "B"), 2: ("C", "D"), 3: ("A", "C", "D"), 4: tuple(p["id"] for p in s.pts), 5: ("A", "D")}[e["s"]]
         for p in s.pts:
             p["con"] = p["id"] in sets
     elif k == "MakeFree":
